@@ -79,7 +79,7 @@ func genMetricDoc(r *core.Rng) doc {
 		} else {
 			d = doc{{"name", q(name)}, {"action", q("add")}, {"value", pick(r, numsPos)}}
 		}
-	case 6: // histogram (never the probe: what prometheus makes of buckets is not modelled ... it may still be)
+	case 6: // histogram (for the probe name the model answers TMaybe: what prometheus makes of the buckets is not modelled)
 		d = doc{{"name", q(name)}, {"action", q("observe")}, {"value", pick(r, numsPos)}, {"buckets", pick(r, []string{"[1,2,5,10]", "[]", "[0.5, 1e1]", "[ 1 ,2 ]"})}}
 	case 7, 8: // grouped
 		d = doc{{"group", q(pick(r, groups))}, {"name", q(name)}, {"action", q(pick(r, []string{"add", "set"}))}, {"value", pick(r, numsPos)}}
